@@ -83,6 +83,9 @@ Shapes(i) == {
                                          Value("c", 0, 2, SimpleA(Std("uint", "NONE", 2, TRUE), {IntV(1), IntV(3)}))>>, -1))>>,
     \* an explicitly positioned value followed by a field that reads to the end of the PDU
     <<Value(Nm("p", i), 3, -1, Simple(U8)), Value(Nm("f", i), -1, -1, [k |-> "eopfield", st |-> Item])>>,
+    \* a DTC object: 24 bit trouble codes, of which the description defines three
+    <<Value(Nm("d", i), -1, -1, [k |-> "dtc", dct |-> Std("uint", "NONE", 24, TRUE), codes |-> <<1, 66051, 16777215>>])>>,
+    <<Value(Nm("d", i), -1, 4, [k |-> "dtc", dct |-> Std("uint", "NONE", 12, FALSE), codes |-> <<2, 291>>])>>,
     <<Const(Nm("c", i), -1, -1, U8, IntV(171))>>,
     <<Const(Nm("c", i), -1, -1, Std("uint", "NONE", 16, FALSE), IntV(4660))>>,
     <<PhysConst(Nm("c", i), -1, Simple(U8), IntV(7))>>,
